@@ -365,6 +365,10 @@ func (s *sim) oracle(kind string, g int, n int64, res string, b, a snapshot, met
 		if live {
 			s.oracleIgnore(g, n, bp, ap)
 		}
+	case "rhandshake":
+		if live {
+			s.oracleHandshake(g, n, bp, ap, b, a)
+		}
 	case "create":
 		// (6) for stop + create: a group restored from its meta page gets the positions it had,
 		// except that both are lifted to the queue ack when they lie below it
